@@ -88,6 +88,7 @@ fn eval_line(l: &str, stats: &mut BTreeMap<String, u64>) -> (String, String) {
             let same = strip_pa(&r) == b;
             if cfg.limit.is_none() && !same && verdict == "ok" { verdict = format!("FAIL input {}: with error detail on the result is `{}` but with it off `{}`", hexs(inp), strip_pa(&r), b); }
             if cfg.limit.is_some() && !same && !r.starts_with("limit ") && verdict == "ok" { verdict = format!("FAIL input {}: under call limit {:?} the result is `{}`, neither the unlimited result `{}` nor the call-limit error", hexs(inp), cfg.limit, strip_pa(&r), b); }
+            if cfg.limit.map_or(false, |n| n > 1_000_000) && r.starts_with("limit ") && verdict == "ok" { verdict = format!("FAIL input {}: \"call limit reached\" under the limit {:?}, far above the number of calls of this parse (it completes under smaller limits)", hexs(inp), cfg.limit); }
             if cfg.limit.is_some() { *stats.entry(if same { "limit_same".into() } else { "limit_error".to_string() }).or_default() += 1; }
         }
         outs.push(r);
@@ -155,7 +156,10 @@ fn main() {
                         "C15" => vec!["m1,d1,l_".into()],
                         "C12" => { // sweep: every limit from 1 up to a bound
                             let vm = pest_vm::Vm::new(orules.clone());
-                            let _ = vm; (1..=(if thorough { 60 } else { 24 })).map(|n| format!("m1,d0,l{}", n)).collect() }
+                            let _ = vm; let mut v: Vec<String> = (1..=(if thorough { 60 } else { 24 })).map(|n| format!("m1,d0,l{}", n)).collect();
+                            // and limits at the edges of the integer types (a limit is a NonZeroUsize)
+                            if gi % 8 == 0 { for n in [usize::MAX, usize::MAX - 1, (u32::MAX as usize) + 1, u32::MAX as usize, (i32::MAX as usize) + 1, i64::MAX as usize, (i64::MAX as usize) + 1] { v.push(format!("m1,d0,l{}", n)); } }
+                            v }
                         _ => vec!["m1,d0,l_".into()],
                     };
                     let these_inputs = if profile == "C12" { // fewer inputs per limit
